@@ -54,14 +54,17 @@ func (r *Rule) Inflected(s string) string {
 
 func (r *Rule) inflected(s string) string {
 	if res := r.compiledIrregular.FindStringSubmatch(s); len(res) >= 3 {
-		var buf strings.Builder
+		// case folding of regexp may differ from strings.ToLower (e.g. U+017F)
+		if replacement, ok := r.irregularMap[strings.ToLower(res[2])]; ok {
+			var buf strings.Builder
 
-		buf.WriteString(res[1])
-		// keep the case of the first letter of the matched word
-		buf.WriteString(res[2][0:1])
-		buf.WriteString(r.irregularMap[strings.ToLower(res[2])][1:])
+			buf.WriteString(res[1])
+			// keep the case of the first letter of the matched word
+			buf.WriteString(res[2][0:1])
+			buf.WriteString(replacement[1:])
 
-		return buf.String()
+			return buf.String()
+		}
 	}
 
 	if r.compiledUninflected.MatchString(s) {
